@@ -17,6 +17,7 @@
 
 #define EXC_HttpFramingError 1
 #define HM_MAXLEN ((size_t)1 << 50)
+#define PHB_MAXLEN ((size_t)1 << 31)        /* header blocks: bounded by the response cap (size bound, trusted_base) */
 static const char iora_empty_str[1] = { 0 };
 #define iora_sv_DEFAULT ((iora_sv){ iora_empty_str, 0 })         /* std::string{} : size()==0, data() points at a NUL */
 #define IORA_SV_EMPTY iora_sv_DEFAULT                            /* the literal "" converted to std::string */
@@ -37,9 +38,51 @@ size_t GB;                /* offset of SOME non-digit: fixed by the from_chars m
 #define SAT(i_) ((i_) <= HM_MAXLEN ? (i_) : 0)                   /* spec-side index arithmetic cannot wrap */
 #ifdef HM_NO_CONTENT
 #define HM_CONTENT(e_) 1
+#define HM_ON 0
 #else
 #define HM_CONTENT(e_) (e_)
+#define HM_ON 1
 #endif
+/* parseHeaderBlock: each proof switches on only the byte facts its clauses depend on (-DPHB_ONLY + any of PHB_ON_STATUS / PHB_ON_LINE /
+ * PHB_ON_FIELD); a switched-off search is range-only, a switched-off comparison is any boolean. Dropping facts only adds behaviours. */
+#if defined(HM_NO_CONTENT)
+#define PHB_STATUS_ON 0
+#define PHB_LINE_ON 0
+#define PHB_FIELD_ON 0
+#elif defined(PHB_ONLY)
+#ifdef PHB_ON_STATUS
+#define PHB_STATUS_ON 1
+#else
+#define PHB_STATUS_ON 0
+#endif
+#ifdef PHB_ON_LINE
+#define PHB_LINE_ON 1
+#else
+#define PHB_LINE_ON 0
+#endif
+#ifdef PHB_ON_FIELD
+#define PHB_FIELD_ON 1
+#else
+#define PHB_FIELD_ON 0
+#endif
+#else
+#define PHB_STATUS_ON 1
+#define PHB_LINE_ON 1
+#define PHB_FIELD_ON 1
+#endif
+#if PHB_LINE_ON
+#define HM_LOOP_CONTENT(e_) (e_)
+#else
+#define HM_LOOP_CONTENT(e_) 1
+#endif
+/* ghost-consistency assertions of the shims (pure index arithmetic) are PROVED in the range-only safety proof, which admits a superset of
+ * the behaviours of every other proof of the same function, and are facts (assumed) in the others: one clause group per proof */
+#ifdef HM_NO_CONTENT
+#define HM_GHOST_FACT(c_, msg_) IORA_ASSERT(c_, msg_)
+#else
+#define HM_GHOST_FACT(c_, msg_) IORA_ASSUME(c_)
+#endif
+#define HM_C(e_) (!content || (e_))
 
 /* ---- ghost record of the list walkers (parseContentLength / transferEncodingFinalIsChunked); ONE object ---- */
 struct hm_list_ghost {
@@ -51,66 +94,76 @@ struct hm_list_ghost {
 } HL;
 
 /* record of the most recent find_first_not_of (string identity + result): the following find_last_not_of on the same string is instantiated there */
-struct hm_trim_ghost { const char *l_p; size_t l_n, l_a; } HT;
+struct hm_trim_ghost { const char *l_p; size_t l_n, l_a; size_t ss_pos, ss_n, ss_src; /* the last substr: position, length of the copy, length of the source */ } HT;
 
 size_t nondet_size_t(void); _Bool nondet_bool(void); uint64_t nondet_u64(void);
 
 #if defined(IORA_SEARCH) || defined(IORA_NATIVE)
-static inline size_t hm_find_ch0(const iora_sv *s, char c, size_t pos) { for (size_t i = pos; i < s->n; i++) if (s->p[i] == c) return i; return IORA_NPOS; }
-static inline size_t hm_first_not_ows0(const iora_sv *s, size_t pos) { HT.l_p = s->p; HT.l_n = s->n; HT.l_a = IORA_NPOS; for (size_t i = pos; i < s->n; i++) if (!HM_OWS(s->p[i])) { HT.l_a = i; return i; } return IORA_NPOS; }
-static inline size_t hm_last_not_ows0(const iora_sv *s, size_t pos) { if (s->n == 0) return IORA_NPOS; size_t i = (pos < s->n - 1 ? pos : s->n - 1) + 1; while (i > 0) { if (!HM_OWS(s->p[i - 1])) return i - 1; i--; } return IORA_NPOS; }
-static inline size_t hm_find_crlf0(const iora_sv *s, size_t pos) { for (size_t i = pos; i + 1 < s->n; i++) if (s->p[i] == (char)13 && s->p[i + 1] == (char)10) return i; return IORA_NPOS; }
+static inline size_t hm_find_ch1(const iora_sv *s, char c, size_t pos, int content) { (void)content; for (size_t i = pos; i < s->n; i++) if (s->p[i] == c) return i; return IORA_NPOS; }
+static inline size_t hm_first_not_ows1(const iora_sv *s, size_t pos, int content) { (void)content; HT.l_p = s->p; HT.l_n = s->n; HT.l_a = IORA_NPOS; for (size_t i = pos; i < s->n; i++) if (!HM_OWS(s->p[i])) { HT.l_a = i; return i; } return IORA_NPOS; }
+static inline size_t hm_last_not_ows1(const iora_sv *s, size_t pos, int content) { (void)content; if (s->n == 0) return IORA_NPOS; size_t i = (pos < s->n - 1 ? pos : s->n - 1) + 1; while (i > 0) { if (!HM_OWS(s->p[i - 1])) return i - 1; i--; } return IORA_NPOS; }
+static inline size_t hm_find_crlf1(const iora_sv *s, size_t pos, int content) { (void)content; for (size_t i = pos; i + 1 < s->n; i++) if (s->p[i] == (char)13 && s->p[i + 1] == (char)10) return i; return IORA_NPOS; }
 #else
 /* s.find(c, pos) */
-static inline size_t hm_find_ch0(const iora_sv *s, char c, size_t pos)
+static inline size_t hm_find_ch1(const iora_sv *s, char c, size_t pos, int content)
 {
   size_t r = nondet_size_t();
   IORA_ASSUME(r == IORA_NPOS || (r >= pos && r < s->n));
-  IORA_ASSUME(HM_CONTENT(r == IORA_NPOS || s->p[r] == c));
-  IORA_ASSUME(HM_CONTENT((GQ >= pos && GQ < FEND(r, *s)) ==> s->p[GQ] != c));
-  IORA_ASSUME(HM_CONTENT((GS >= 1 && GS - 1 >= pos && GS - 1 < FEND(r, *s)) ==> s->p[GS - 1] != c));
+  IORA_ASSUME(HM_C(r == IORA_NPOS || s->p[r] == c));
+  IORA_ASSUME(HM_C((GQ >= pos && GQ < FEND(r, *s)) ==> s->p[GQ] != c));
+  IORA_ASSUME(HM_C((GS >= 1 && GS - 1 >= pos && GS - 1 < FEND(r, *s)) ==> s->p[GS - 1] != c));
   return r;
 }
 /* s.find_first_not_of(" \t", pos) */
-static inline size_t hm_first_not_ows0(const iora_sv *s, size_t pos)
+static inline size_t hm_first_not_ows1(const iora_sv *s, size_t pos, int content)
 {
   size_t r = nondet_size_t();
   IORA_ASSUME(r == IORA_NPOS || (r >= pos && r < s->n));
-  IORA_ASSUME(HM_CONTENT(r == IORA_NPOS || !HM_OWS(s->p[r])));
-  IORA_ASSUME(HM_CONTENT((GQ >= pos && GQ < FEND(r, *s)) ==> HM_OWS(s->p[GQ])));
-  IORA_ASSUME(HM_CONTENT(pos < FEND(r, *s) ==> HM_OWS(s->p[pos])));                       /* instantiated at the search start */
+  IORA_ASSUME(HM_C(r == IORA_NPOS || !HM_OWS(s->p[r])));
+  IORA_ASSUME(HM_C((GQ >= pos && GQ < FEND(r, *s)) ==> HM_OWS(s->p[GQ])));
+  IORA_ASSUME(HM_C(pos < FEND(r, *s) ==> HM_OWS(s->p[pos])));                       /* instantiated at the search start */
   HT.l_p = s->p; HT.l_n = s->n; HT.l_a = r;
   return r;
 }
 /* s.find_last_not_of(" \t", pos): the last index <= min(pos, n-1) holding a non-OWS byte */
 #define HM_LAST_OCC(t_) (((t_) < s->n && (t_) <= pos && (r == IORA_NPOS || (t_) > r)) ==> HM_OWS(s->p[(t_)]))
-static inline size_t hm_last_not_ows0(const iora_sv *s, size_t pos)
+static inline size_t hm_last_not_ows1(const iora_sv *s, size_t pos, int content)
 {
   size_t r = nondet_size_t();
   IORA_ASSUME(r == IORA_NPOS || (r < s->n && r <= pos));
-  IORA_ASSUME(HM_CONTENT(r == IORA_NPOS || !HM_OWS(s->p[r])));
-  IORA_ASSUME(HM_CONTENT(HM_LAST_OCC(GQ)));
-  IORA_ASSUME(HM_CONTENT(s->n == 0 || HM_LAST_OCC(pos < s->n - 1 ? pos : s->n - 1)));     /* instantiated at the search start */
-  IORA_ASSUME(HM_CONTENT(HM_LAST_OCC(HT.l_a)));                                           /* ... and at the result of the preceding find_first_not_of */
-#ifdef HM_NO_CONTENT
+  IORA_ASSUME(HM_C(r == IORA_NPOS || !HM_OWS(s->p[r])));
+  IORA_ASSUME(HM_C(HM_LAST_OCC(GQ)));
+  IORA_ASSUME(HM_C(s->n == 0 || HM_LAST_OCC(pos < s->n - 1 ? pos : s->n - 1)));     /* instantiated at the search start */
+  IORA_ASSUME(HM_C(HM_LAST_OCC(HT.l_a)));                                           /* ... and at the result of the preceding find_first_not_of */
   /* range-only build: the consequence of that instantiation (a non-OWS byte at l_a <= pos of the SAME string => the last non-OWS byte is at or after it) */
-  IORA_ASSUME(!(HT.l_p == s->p && HT.l_n == s->n && HT.l_a < s->n && HT.l_a <= pos) || (r != IORA_NPOS && r >= HT.l_a));
-#endif
+  IORA_ASSUME(content || !(HT.l_p == s->p && HT.l_n == s->n && HT.l_a < s->n && HT.l_a <= pos) || (r != IORA_NPOS && r >= HT.l_a));
   return r;
 }
 /* s.find("\r\n", pos) */
 #define HM_CRLF_AT(s_, i_) (((s_).p[(i_)] == (char)13) & ((s_).p[(i_) + 1] == (char)10))
 #define HM_FIRST_CRLF(t_) (((t_) >= pos && (t_) < s->n && s->n - (t_) >= 2 && (t_) < FEND(r, *s)) ==> !HM_CRLF_AT(*s, (t_)))
-static inline size_t hm_find_crlf0(const iora_sv *s, size_t pos)
+static inline size_t hm_find_crlf1(const iora_sv *s, size_t pos, int content)
 {
   size_t r = nondet_size_t();
   IORA_ASSUME(r == IORA_NPOS || (r >= pos && r < s->n && s->n - r >= 2));
-  IORA_ASSUME(HM_CONTENT(r == IORA_NPOS || HM_CRLF_AT(*s, r)));
-  IORA_ASSUME(HM_CONTENT(HM_FIRST_CRLF(GQ)));
-  IORA_ASSUME(HM_CONTENT(GS < 2 || HM_FIRST_CRLF(GS - 2)));
+  IORA_ASSUME(HM_C(r == IORA_NPOS || HM_CRLF_AT(*s, r)));
+  IORA_ASSUME(HM_C(HM_FIRST_CRLF(GQ)));
+  IORA_ASSUME(HM_C(GS < 2 || HM_FIRST_CRLF(GS - 2)));
   return r;
 }
 #endif
+
+static inline size_t hm_find_ch0(const iora_sv *s, char c, size_t pos) { return hm_find_ch1(s, c, pos, HM_ON); }
+static inline size_t hm_first_not_ows0(const iora_sv *s, size_t pos) { return hm_first_not_ows1(s, pos, HM_ON); }
+static inline size_t hm_last_not_ows0(const iora_sv *s, size_t pos) { return hm_last_not_ows1(s, pos, HM_ON); }
+static inline size_t hm_find_crlf0(const iora_sv *s, size_t pos) { return hm_find_crlf1(s, pos, HM_ON); }
+/* the searches inside the header-line loop of parseHeaderBlock (and its trim helper) */
+static inline size_t hm_find_colon(const iora_sv *s, size_t pos) { return hm_find_ch1(s, (char)58, pos, PHB_FIELD_ON); }
+static inline size_t hm_trim_first(const iora_sv *s) { return hm_first_not_ows1(s, 0, PHB_FIELD_ON); }
+static inline size_t hm_trim_last(const iora_sv *s) { return hm_last_not_ows1(s, IORA_NPOS, PHB_FIELD_ON); }
+/* status line */
+static inline size_t hm_find_nl(const iora_sv *s) { return hm_find_crlf1(s, 0, PHB_LINE_ON); }
+static inline size_t hm_find_sp(const iora_sv *s, size_t pos) { return hm_find_ch1(s, (char)32, pos, PHB_STATUS_ON); }
 
 /* ---- the three searches of the list walkers, with the ghost record of the current iteration ---- */
 static inline size_t hm_find_comma(const iora_sv *s, size_t pos)
@@ -129,7 +182,7 @@ static inline size_t hm_last_not_ows(const iora_sv *s, size_t pos) { return hm_l
  * strings short enough not to overflow). The value is stated exactly for one- and two-digit strings and unspecified for longer ones.
  * Index form of the call (declared rule pfu-sv): parseFullUInt(s.data() + a, s.data() + b, base, out). */
 #define DG_V(c_) ((uint64_t)(((c_) - 48) & 15))
-static inline bool hm_pfu0(const iora_sv *s, size_t a, size_t b, int base, uint64_t *out, uint64_t *gval)
+static inline bool hm_pfu0(const iora_sv *s, size_t a, size_t b, int base, uint64_t *out, uint64_t *gval, int content)
 {
   IORA_ASSERT(a <= b && b <= s->n, "parseFullUInt: [b,e) is a range inside the string");
   IORA_ASSERT(base == 10, "model: decimal only");
@@ -139,13 +192,13 @@ static inline bool hm_pfu0(const iora_sv *s, size_t a, size_t b, int base, uint6
   for (size_t i = 0; i < len && ok; i++) { char c = s->p[a + i]; if (!HM_DIG(c)) ok = 0; else { uint64_t d = DG_V(c); if (val > (UINT64_MAX - d) / 10) ok = 0; else val = val * 10 + d; } }
 #else
   bool ok = nondet_bool(); uint64_t val = nondet_u64();
-  char c0 = len > 0 ? s->p[a] : (char)0, c1 = len > 1 ? s->p[a + 1] : (char)0, c2 = len > 2 ? s->p[a + 2] : (char)0;
+  char c0 = (content && len > 0) ? s->p[a] : (char)0, c1 = (content && len > 1) ? s->p[a + 1] : (char)0, c2 = (content && len > 2) ? s->p[a + 2] : (char)0;
   IORA_ASSUME(!ok || len >= 1);
-  IORA_ASSUME(HM_CONTENT(!ok || GD >= len || HM_DIG(s->p[a + (GD < len ? GD : 0)])));
-  IORA_ASSUME(HM_CONTENT(ok || len == 0 || len > 19 || (GB < len && !HM_DIG(s->p[a + (GB < len ? GB : 0)]))));
-  IORA_ASSUME(HM_CONTENT(!(ok && len == 1) || val == DG_V(c0)));
-  IORA_ASSUME(HM_CONTENT(!(ok && len == 2) || val == DG_V(c0) * 10 + DG_V(c1)));
-  IORA_ASSUME(HM_CONTENT(!(ok && len == 3) || val == DG_V(c0) * 100 + DG_V(c1) * 10 + DG_V(c2)));
+  IORA_ASSUME(HM_C(!ok || GD >= len || HM_DIG(s->p[a + (GD < len ? GD : 0)])));
+  IORA_ASSUME(HM_C(ok || len == 0 || len > 19 || (GB < len && !HM_DIG(s->p[a + (GB < len ? GB : 0)]))));
+  IORA_ASSUME(HM_C(!(ok && len == 1) || val == DG_V(c0)));
+  IORA_ASSUME(HM_C(!(ok && len == 2) || val == DG_V(c0) * 10 + DG_V(c1)));
+  IORA_ASSUME(HM_C(!(ok && len == 3) || val == DG_V(c0) * 100 + DG_V(c1) * 10 + DG_V(c2)));
 #endif
   if (ok) *out = val;                          /* value unmodified on failure */
   *gval = val;
@@ -154,7 +207,7 @@ static inline bool hm_pfu0(const iora_sv *s, size_t a, size_t b, int base, uint6
 /* parseContentLength: + snapshot of the element that starts at GS, value of the first element */
 static inline bool hm_pfu(const iora_sv *s, size_t a, size_t b, int base, uint64_t *out)
 {
-  uint64_t val; bool ok = hm_pfu0(s, a, b, base, out, &val);
+  uint64_t val; bool ok = hm_pfu0(s, a, b, base, out, &val, HM_ON);
   if (ok && HL.l_pos == GS) { HL.seen = 1; HL.s_a = a; HL.s_b1 = b; HL.s_end = HL.l_end; HL.s_val = val; }
   if (ok && !HL.v0_set) { HL.v0 = val; HL.v0_set = 1; }
   return ok;
@@ -163,7 +216,7 @@ static inline bool hm_pfu(const iora_sv *s, size_t a, size_t b, int base, uint64
 struct hm_status_ghost { size_t a, b; uint64_t val; bool ok; } HS;
 static inline bool hm_pfu_status(const iora_sv *s, size_t a, size_t b, int base, uint64_t *out)
 {
-  uint64_t val; bool ok = hm_pfu0(s, a, b, base, out, &val);
+  uint64_t val; bool ok = hm_pfu0(s, a, b, base, out, &val, PHB_STATUS_ON);
   HS.a = a; HS.b = b; HS.val = val; HS.ok = ok;
   return ok;
 }
@@ -180,6 +233,8 @@ static inline bool hm_sv_eq_lit(iora_sv x, const char *s, size_t len)
   return r;
 }
 #define IORA_SV_EQ_LIT(x_, s_) hm_sv_eq_lit((x_), (s_), sizeof(s_) - 1)
+/* the same inside parseHeaderBlock's status-line part (switchable) */
+#define PHB_SV_EQ_LIT(x_, s_) (PHB_STATUS_ON ? hm_sv_eq_lit((x_), (s_), sizeof(s_) - 1) : (bool)nondet_bool())
 
 /* `lastToken = v.substr(a, n)` in transferEncodingFinalIsChunked: substr + ghost record of the token and its element */
 static inline iora_sv hm_te_token(const iora_sv *v, size_t a, size_t len)
@@ -226,6 +281,10 @@ static inline iora_sv hm_substr(const iora_sv *s, size_t pos, size_t len)
 {
   IORA_ASSERT(pos <= s->n, "substr: pos <= size() (std::out_of_range otherwise)");
   iora_sv r; r.p = s->p + pos; r.n = IORA_MIN(len, s->n - pos);
+  /* cut point: the copy lies inside its source, in SUM form (asserted, then available to the solver as a fact) */
+  HM_GHOST_FACT(r.n <= s->n && pos + r.n <= s->n, "substr: the copy lies inside the source");
+  IORA_ASSUME(r.n <= s->n && pos + r.n <= s->n);
+  HT.ss_pos = pos; HT.ss_n = r.n; HT.ss_src = s->n;
   return r;
 }
 static inline iora_sv hm_substr_hs(const iora_sv *hs, size_t pos, size_t len) { iora_sv r = hm_substr(hs, pos, len); HB.sub_off = pos; HB.sub_n = r.n; return r; }
@@ -235,6 +294,7 @@ static inline size_t hm_rfind0_lit(const iora_sv *s, const char *lit, size_t len
 {
   IORA_ASSERT(len <= 8, "model: prefix literal of at most 8 characters");
   if (s->n < len) return IORA_NPOS;
+  if (!PHB_STATUS_ON) return nondet_bool() ? 0 : IORA_NPOS;
   bool r = true;
 #define HM_B(k) if (len > (k)) r &= (s->p[k] == lit[k]);
   HM_B(0) HM_B(1) HM_B(2) HM_B(3) HM_B(4) HM_B(5) HM_B(6) HM_B(7)
@@ -242,7 +302,7 @@ static inline size_t hm_rfind0_lit(const iora_sv *s, const char *lit, size_t len
   return r ? 0 : IORA_NPOS;
 }
 /* hs.find("\r\n", pos) at the top of the header-line loop */
-static inline size_t hm_line_end(const iora_sv *hs, size_t pos) { size_t r = hm_find_crlf0(hs, pos); HB.cur = pos; HB.cur_end = FEND(r, *hs); return r; }
+static inline size_t hm_line_end(const iora_sv *hs, size_t pos) { size_t r = hm_find_crlf1(hs, pos, PHB_LINE_ON); HB.cur = pos; HB.cur_end = FEND(r, *hs); return r; }
 /* `value != clValue` (operator!= on std::string). clValue lives across loop iterations: after the loop havoc its pointer is known only through
  * the invariant, so the accessor ASSERTS that it is the recorded Content-Length value and reads the real bytes of hs. */
 static inline bool hm_sv_ne_cl(const iora_sv *hs, iora_sv x, iora_sv clValue)
@@ -252,7 +312,7 @@ static inline bool hm_sv_ne_cl(const iora_sv *hs, iora_sv x, iora_sv clValue)
   (void)hs; (void)x; (void)clValue;
   return nondet_bool();
 #else
-  IORA_ASSERT(clValue.n == 0 || (clValue.p == hs->p + HB.cl_off && HB.cl_off <= hs->n && clValue.n <= hs->n - HB.cl_off), "accessor: clValue is the value last stored under Content-Length");
+  IORA_ASSERT(clValue.n == 0 || (clValue.p == hs->p + HB.cl_off && HB.cl_off <= hs->n && clValue.n <= hs->n && HB.cl_off + clValue.n <= hs->n), "accessor: clValue is the value last stored under Content-Length");
   const char *yp = hs->p + (clValue.n == 0 ? 0 : HB.cl_off); size_t yn = clValue.n;
 #if defined(IORA_SEARCH) || defined(IORA_NATIVE)
   if (x.n != yn) return true;
@@ -271,9 +331,13 @@ static inline bool hm_sv_ne_cl(const iora_sv *hs, iora_sv x, iora_sv clValue)
 static inline void hm_hdrs_set(iora_hdrs *m, const iora_sv *hs, iora_sv k, iora_sv v)
 {
   size_t ta = (HT.l_a == IORA_NPOS) ? 0 : HT.l_a;
-  IORA_ASSERT(HB.sub_off <= hs->n && ta <= hs->n - HB.sub_off, "ghost: offset of the stored value");
+  /* range facts in SUM form with every term bounded (measured: the subtraction form of this transitivity costs MiniSat minutes, the sum form seconds) */
+  HM_GHOST_FACT(v.n == 0 || (HT.ss_pos == ta && HT.ss_n == v.n && HT.ss_src == HB.sub_n), "ghost: the stored value is what the last substr (inside trim) cut out of the last hs.substr copy");
+  HM_GHOST_FACT(hs->n <= PHB_MAXLEN && HB.sub_off <= hs->n && HB.sub_n <= hs->n && HB.sub_off + HB.sub_n <= hs->n, "ghost: the last hs.substr copy lies inside the block");
+  if (v.n == 0) ta = 0;
+  HM_GHOST_FACT(ta <= hs->n && v.n <= hs->n && HB.sub_off + ta + v.n <= hs->n, "ghost: the stored value lies inside the block");
   size_t off = HB.sub_off + ta;                                    /* last hs.substr + what the last trim cut off in front */
-  IORA_ASSERT(v.n == 0 || (v.p == hs->p + off && v.n <= hs->n - off), "ghost: the stored value is the trimmed copy of the last hs.substr");
+  HM_GHOST_FACT(v.n == 0 || v.p == hs->p + off, "ghost: the stored value is the trimmed copy of the last hs.substr");
   /* which slot: decided from the key BYTES in the proofs that depend on it, any answer otherwise (no byte is read) */
 #if defined(PHB_CL) || defined(IORA_SEARCH) || defined(IORA_NATIVE)
   bool is_cl = HM_NAME_IS_CL(k);
